@@ -607,3 +607,84 @@ Qed.
 
 Lemma report_mono range x y : x <= y -> report range Clip x <= report range Clip y.
 Proof. intros H. unfold report. destruct range as [[lo hi]|]; [apply clip_mono, H|exact H]. Qed.
+
+(** * more on the duration in ticks: it is ceil(duration / tick) unless the quotient is within 5e-9 above a
+   whole number (then it is that whole number, [duration_ticks_near]) *)
+Lemma rhe_le_ceiling x : (round_half_even x <= Qceiling x)%Z.
+Proof.
+  unfold round_half_even. pose proof (Qfloor_le x) as H1. pose proof (Qle_ceiling x) as H2.
+  assert (F : (Qfloor x <= Qceiling x)%Z) by (rewrite Zle_Qle; lra).
+  destruct (Qcompare (x - inject_Z (Qfloor x)) (1 # 2)) eqn:C.
+  - apply Qeq_alt in C. destruct (Z.even _); [exact F|].
+    assert (H : inject_Z (Qfloor x) < inject_Z (Qceiling x)) by lra. rewrite <- Zlt_Qlt in H. lia.
+  - exact F.
+  - apply Qgt_alt in C.
+    assert (H : inject_Z (Qfloor x) < inject_Z (Qceiling x)) by lra. rewrite <- Zlt_Qlt in H. lia.
+Qed.
+
+Lemma qceiling_unique q m : inject_Z (m - 1) < q <= inject_Z m -> Qceiling q = m.
+Proof.
+  intros [A B]. pose proof (Qle_ceiling q) as H1. pose proof (Qceiling_lt q) as H2.
+  assert (H3 : inject_Z (Qceiling q - 1) < inject_Z m) by lra.
+  assert (H4 : inject_Z (m - 1) < inject_Z (Qceiling q)) by lra.
+  rewrite <- Zlt_Qlt in H3, H4. lia.
+Qed.
+
+Lemma duration_ticks_ceiling tpb d m :
+  inject_Z (m - 1) + (1 # 200000000) < d * inject_Z tpb <= inject_Z m -> duration_ticks tpb d = m.
+Proof.
+  intros [H1 H2]. unfold duration_ticks, round8. set (y := d * inject_Z tpb * 100000000).
+  unfold Zminus in H1. rewrite inject_Z_plus, inject_Z_opp in H1. change (inject_Z 1) with 1 in H1.
+  assert (U : (round_half_even y <= m * 100000000)%Z).
+  { pose proof (rhe_le_ceiling y) as R. assert (Y : y <= inject_Z (m * 100000000)).
+    { rewrite inject_Z_mult. change (inject_Z 100000000) with 100000000. unfold y. lra. }
+    apply Qceiling_resp_le in Y. rewrite Qceiling_Z in Y. lia. }
+  assert (L : ((m - 1) * 100000000 < round_half_even y)%Z).
+  { destruct (rhe_bounds y) as [_ B]. rewrite Zlt_Qlt, inject_Z_mult. unfold Zminus.
+    rewrite inject_Z_plus, inject_Z_opp. change (inject_Z 100000000) with 100000000. change (inject_Z 1) with 1.
+    unfold y in *. lra. }
+  apply qceiling_unique. rewrite Zle_Qle in U. rewrite Zlt_Qlt in L. rewrite inject_Z_mult in U, L.
+  change (inject_Z 100000000) with 100000000 in U, L. split.
+  - apply Qlt_shift_div_l; [reflexivity|]. exact L.
+  - apply Qle_shift_div_r; [reflexivity|]. exact U.
+Qed.
+
+Lemma move_to_accepts tpb a v d e :
+  (0 <= tpb)%Z -> 0 <= (match d with Some x => x | None => a_default a end) -> 0 <= e <= 1 ->
+  exists a', move_to tpb a v d e = Some a'.
+Proof. intros Ht Hd He. unfold move_to. apply move_by_accepts; assumption. Qed.
+
+(** * monotone approach over any number of ticks, never past the settled value *)
+Lemma monotone_up_le j k a : wf_auto a -> all_up a -> (j <= k)%nat -> a_cv (run_ticks j a) <= a_cv (run_ticks k a).
+Proof.
+  intros Hw Hu H. induction H as [|k H IH]; [apply Qle_refl|].
+  eapply Qle_trans; [exact IH|apply monotone_up; assumption].
+Qed.
+Lemma monotone_down_le j k a : wf_auto a -> all_down a -> (j <= k)%nat -> a_cv (run_ticks k a) <= a_cv (run_ticks j a).
+Proof.
+  intros Hw Hu H. induction H as [|k H IH]; [apply Qle_refl|].
+  eapply Qle_trans; [apply monotone_down; assumption|exact IH].
+Qed.
+Lemma below_settled k a : wf_auto a -> all_up a -> a_cv (run_ticks k a) <= settled_value a.
+Proof.
+  intros Hw Hu. destruct (arrived (Nat.max k (ticks_left a)) a Hw ltac:(lia)) as [E _]. rewrite <- E.
+  apply monotone_up_le; [assumption..|lia].
+Qed.
+Lemma above_settled k a : wf_auto a -> all_down a -> settled_value a <= a_cv (run_ticks k a).
+Proof.
+  intros Hw Hu. destruct (arrived (Nat.max k (ticks_left a)) a Hw ltac:(lia)) as [E _]. rewrite <- E.
+  apply monotone_down_le; [assumption..|lia].
+Qed.
+
+(** * the trace of n ticks: every tick either calls nobody or calls every binding, in bind order, with the
+   value reported after that tick *)
+Lemma ticks_trace_calls n a :
+  Forall (fun vc : Q * list call => snd vc = [] \/ snd vc = map (fun b => (b, fst vc)) (a_binds a)) (snd (ticks n a)).
+Proof.
+  revert a. induction n as [|n IH]; intros a; cbn [ticks]; [constructor|].
+  pose proof (tick_calls a) as Hc. destruct (tick_fields a) as [_ [_ [Hb _]]]. cbv zeta in Hb.
+  destruct (tick a) as [a1 c]. cbn [fst] in Hb. specialize (IH a1). destruct (ticks n a1) as [a2 tr].
+  cbn [snd] in *. constructor.
+  - cbn [fst snd]. destruct Hc as [[_ ->]|[_ ->]]; [left; reflexivity|right; rewrite Hb; reflexivity].
+  - rewrite <- Hb. exact IH.
+Qed.
